@@ -55,6 +55,16 @@ pub fn run_script<L: Language + 'static>(ops: &[String]) -> Result<Vec<String>, 
                     let rw = Rewrite::<L>::new(name.trim(), l.trim(), rr.trim());
                     format!("{}", apply_rewrites(&mut eg, &[rw]))
                 }
+                "rws" => {
+                    // several rules in one call: "rws n1: l1 => r1 | n2: l2 => r2"
+                    let rws: Vec<Rewrite<L>> = rest.split(" | ").map(|x| {
+                        let (name, r) = x.split_once(':').unwrap();
+                        let (l, rr) = r.split_once("=>").unwrap();
+                        Rewrite::<L>::new(name.trim(), l.trim(), rr.trim())
+                    }).collect();
+                    format!("{}", apply_rewrites(&mut eg, &rws))
+                }
+                "ids" => format!("{:?} nodes={}", eg.ids(), eg.total_number_of_nodes()),
                 #[cfg(feature = "explanations")]
                 "explain" => {
                     let (a, b) = rest.split_once("==").unwrap();
